@@ -32,7 +32,7 @@ MPSC = dict(engine="mpsc", scale_quick=4, scale_thorough=30, timeout_quick=600, 
 HMAP = dict(engine="hmap", scale_quick=3, scale_thorough=12, timeout_quick=900, timeout_thorough=6000)
 
 LOAD = dict(engine="load", scale_quick=2, scale_thorough=15, timeout_quick=900, timeout_thorough=6000)
-LOAD_RULE = ("load engine (half of the joiners of an in-flight load are single-key BulkGet calls; a Clock whose next sample can run a callback places a late Get of the same key between a loader's return and the publication of its result: it must join, not load): 120 scripted cases per unit of scale over 1-3 keys, 6-20 macro steps each: loader-backed Get / explicit Refresh callers (goroutines), a gated loader whose every invocation "
+LOAD_RULE = ("load engine; plus 24 bulk windows per unit of scale (a Get or BulkGet of k in flight, an overlapping BulkGet of {j,k} / {k,m} whose own loader volunteers k or not, the joined load ending in value / not-found / error: the loader must not be asked for k, the BulkGet must not return before the joined load, must hand out its result, and the cache must end as the model's LVolunteer / LFinish events leave it); main part (half of the joiners of an in-flight load are single-key BulkGet calls; a Clock whose next sample can run a callback places a late Get of the same key between a loader's return and the publication of its result: it must join, not load): 120 scripted cases per unit of scale over 1-3 keys, 6-20 macro steps each: loader-backed Get / explicit Refresh callers (goroutines), a gated loader whose every invocation "
              "the harness finishes when and how it chooses (value / error / not-found / panic), explicit writes (Set, SetIfAbsent, Compute) and invalidations placed before, during and after loads; "
              "every step is an event of the Coq protocol model, which must predict who joins, who loads, what is installed, who is released and each key's value after every step; "
              "distinct_nontrivial = distinct (event kind, join expected?, outcome, superseded?, number of waiters) combinations")
